@@ -52,17 +52,52 @@ def main():
                 def __str__(self):
                     return 'fake-transport'
             try:
-                client = C(credentials=AnonymousCredentials(), transport=lambda **kw: T(**kw), client_options=co.ClientOptions(**opts))
+                kw = {}
+                o2 = dict(opts)
+                if 'credentials' in i['creds']:
+                    kw['credentials'] = AnonymousCredentials()
+                if 'api_key' in i['creds']:
+                    o2['api_key'] = 'k'
+                if 'scopes' in i['creds']:
+                    o2['scopes'] = ['s']
+                if 'credentials_file' in i['creds']:
+                    o2['credentials_file'] = 'creds.json'
+                if i['transport'] == 'instance':
+                    TBase = importlib.import_module(f"{pl['module']}.services.{pl['service_snake']}.transports").__dict__[pl['service'] + 'Transport']
+
+                    class Inst(TBase):
+                        def __init__(self):
+                            self._host = 'instance.example:443'; self._wrapped_methods = {}
+
+                        @property
+                        def host(self):
+                            return self._host
+
+                        @property
+                        def kind(self):
+                            return 'grpc_asyncio' if kind == 'async' else 'grpc'
+                    if kind == 'async':
+                        continue            # the asyncio client only takes transport names / callables through to the sync constructor
+                    kw['transport'] = Inst()
+                elif i['transport'] == 'callable' or i['transport'] == 'none' or i['transport'] == 'name':
+                    # a recording factory stands in for the named/default transport class (no channel is opened)
+                    kw['transport'] = lambda **k: T(**k)
+                    if i['transport'] in ('none', 'name'):
+                        import google.auth._default as gad
+                        gad.get_api_key_credentials = lambda key: AnonymousCredentials()
+                client = C(client_options=co.ClientOptions(**o2), **kw)
                 cs = seen.get('client_cert_source_for_mtls')
                 ep = client.api_endpoint
                 tmpl = C._DEFAULT_ENDPOINT_TEMPLATE if hasattr(C, '_DEFAULT_ENDPOINT_TEMPLATE') else SyncC._DEFAULT_ENDPOINT_TEMPLATE
-                if ep == SyncC.DEFAULT_MTLS_ENDPOINT and ep != i['optEndpoint']:
+                if i['transport'] == 'instance':
+                    epa = 'TRANSPORT-HOST' if ep == 'instance.example:443' else 'OTHER:' + str(ep)
+                elif ep == SyncC.DEFAULT_MTLS_ENDPOINT and ep != i['optEndpoint']:
                     epa = 'MTLS'
                 elif ep == i['optEndpoint']:
                     epa = ep
                 else:
                     epa = 'TEMPLATE:' + client.universe_domain if ep == tmpl.format(UNIVERSE_DOMAIN=client.universe_domain) else 'OTHER:' + str(ep)
-                obs[kind] = dict(error='none', endpoint=epa, universe=client.universe_domain, host=seen.get('host') == ep,
+                obs[kind] = dict(error='none', endpoint=epa, universe=client.universe_domain, host=(i['transport'] == 'instance' or seen.get('host') == ep),
                                  cert='none' if cs is None else ('provided' if cs is provided else ('default' if cs is default else 'other')))
             except Exception as e:
                 obs[kind] = dict(error=type(e).__name__, endpoint='', universe='', cert='none', host=True)
